@@ -611,6 +611,23 @@ pub struct AT2 {
 }
 observe_struct!(AT2 { attrs, e });
 
+/// forward_attrs with an explicitly empty list, no `attributes(..)`
+#[derive(FromField)]
+#[darling(forward_attrs())]
+pub struct FR4 {
+    attrs: Vec<syn::Attribute>,
+}
+observe_struct!(FR4 { attrs });
+
+/// forward_attrs with an explicitly empty list next to `attributes(..)`
+#[derive(FromDeriveInput)]
+#[darling(attributes(a), forward_attrs())]
+pub struct DI7 {
+    attrs: Vec<syn::Attribute>,
+    p: Option<PM<4401>>,
+}
+observe_struct!(DI7 { attrs, p });
+
 pub enum ElemInput<'a> {
     DeriveInput(&'a syn::DeriveInput),
     Field(&'a syn::Field),
@@ -628,6 +645,8 @@ pub fn run_elem_receiver(name: &str, input: &ElemInput) -> Option<Result<V, darl
         ("FR1", ElemInput::Field(f)) => ob(FR1::from_field(f)),
         ("FR2", ElemInput::Field(f)) => ob(FR2::from_field(f)),
         ("FR3", ElemInput::Field(f)) => ob(FR3::from_field(f)),
+        ("FR4", ElemInput::Field(f)) => ob(FR4::from_field(f)),
+        ("DI7", ElemInput::DeriveInput(d)) => ob(DI7::from_derive_input(d)),
         ("VR1", ElemInput::Variant(v)) => ob(VR1::from_variant(v)),
         ("VR2", ElemInput::Variant(v)) => ob(VR2::from_variant(v)),
         ("TR1", ElemInput::TypeParam(t)) => ob(TR1::from_type_param(t)),
